@@ -773,9 +773,177 @@ def run_nssub(case):
     return {"init": init, "obs": obs}
 
 
+# ---------------------------------------------------------------- intern cases
+# Interleaved first-time requests for the default set of one class (model/RArgsIntern.v).
+# Thread 0's request is parked at the k-th 'line' event it executes inside term_image code
+# (sys.settrace in that thread only; a counting run gives the number of positions); the main
+# thread performs a complete request in that window, releases thread 0, and asks once more
+# afterwards.  Every position gets a fresh class chain, so the class has no default set yet.
+import os as _os
+import sys as _sys
+import threading as _threading
+
+import term_image as _ti
+
+_TI_DIR = _os.path.dirname(_os.path.abspath(_ti.__file__)) + _os.sep
+INTERN_TIMEOUT = 120
+
+
+def _intern_chain(case):
+    classes = [Renderable]
+    nsc = {}
+    for i, has in enumerate(case["ns"], 1):
+        body = {}
+        if i == len(case["ns"]) and case.get("renderable"):
+            from term_image.geometry import Size
+            from term_image.renderable import Frame
+
+            seen = body["_seen"] = []
+
+            def _render_(self, render_data, render_args, seen=seen):
+                seen.append(render_args)
+                return Frame(0, None, Size(1, 1), " ")
+
+            body["_render_"] = _render_
+            body["_get_render_size_"] = lambda self: Size(1, 1)
+        cls = RMeta(uniq(f"I{i}"), (classes[-1],), body)
+        if has:
+            nsc[i] = make_args_cls(cls, [i, 10 + i][: 1 + i % 2])
+        classes.append(cls)
+    return classes, nsc
+
+
+def _intern_request(kind, classes):
+    cls = classes[-1]
+    if kind == 0:
+        return lambda: RenderArgs(cls)
+    if kind == 1:
+        return lambda: RenderArgs(cls, None)
+    if kind == 2:
+        init = RenderArgs(classes[-2])      # built outside the window: another class's default
+        return lambda: RenderArgs(cls, init)
+    if kind == 3:
+        inst = cls(1, 1)
+
+        def req():
+            del cls._seen[:]
+            inst.render()
+            return cls._seen[0]
+
+        return req
+    raise AssertionError(kind)
+
+
+def _intern_once(case, k):
+    """k None: counting run (returns the number of positions); else the observation"""
+    classes, nsc = _intern_chain(case)
+    cls = classes[-1]
+    clsidx = {c: i for i, c in enumerate(classes)}
+    req0 = _intern_request(case["req0"], classes)
+    req1 = _intern_request(case["req1"], classes)
+    reached, resume = _threading.Event(), _threading.Event()
+    st = {"n": 0, "parked": False, "pub": False, "built": False, "where": None}
+    out = {}
+
+    def local(frame, event, arg):
+        if event == "line":
+            if k is not None and st["n"] == k and not st["parked"]:
+                st["parked"] = True
+                f, obj = frame, None
+                while f is not None and obj is None:
+                    cand = f.f_locals.get("self")
+                    if isinstance(cand, RenderArgs):
+                        obj = cand
+                    f = f.f_back
+                st["pub"] = cls in RenderArgs._interned
+                st["built"] = obj is not None and hasattr(obj, "render_cls") and hasattr(obj, "_namespaces")
+                st["where"] = f"{frame.f_code.co_name}:{frame.f_lineno}"
+                reached.set()
+                resume.wait(INTERN_TIMEOUT)
+            st["n"] += 1
+        return local
+
+    def tracer(frame, event, arg):
+        return local if frame.f_code.co_filename.startswith(_TI_DIR) else None
+
+    def body():
+        _sys.settrace(tracer)
+        try:
+            out["r0"] = req0()
+        except Exception as e:  # noqa: BLE001
+            out["e0"] = f"{type(e).__name__}: {e}"
+        finally:
+            _sys.settrace(None)
+            reached.set()
+
+    def look(j):
+        ra = out.get(f"r{j}")
+        if ra is None:
+            return None, out.get(f"e{j}", "no result")
+        try:
+            if not isinstance(ra, RenderArgs) or ra.render_cls is not cls:
+                return [98], "render_cls is not the class asked for"
+            held = []
+            for ns in ra:
+                i = clsidx.get(ns._RENDER_CLS, 97)
+                same = i in nsc and type(ns) is nsc[i] and ra[classes[i]] is ns and ns == nsc[i]() \
+                    and ns.as_dict() == nsc[i]().as_dict()
+                held.append(i if same else 50 + i)
+            return sorted(held), None
+        except Exception as e:  # noqa: BLE001
+            return None, f"{type(e).__name__}: {e}"
+
+    th = _threading.Thread(target=body, daemon=True)
+    th.start()
+    try:
+        if not reached.wait(INTERN_TIMEOUT):
+            raise RuntimeError("thread 0 neither parked nor ended")
+        if k is None:
+            th.join(INTERN_TIMEOUT)
+            return st["n"]
+        if st["parked"]:
+            try:
+                out["r1"] = req1()
+            except Exception as e:  # noqa: BLE001
+                out["e1"] = f"{type(e).__name__}: {e}"
+            # the caller of the second request uses its set at once, while thread 0 is still parked
+            out["look1"] = look(1)
+    finally:
+        resume.set()
+        th.join(INTERN_TIMEOUT)
+    if not st["parked"]:
+        return None
+    try:
+        out["r2"] = RenderArgs(cls)
+    except Exception as e:  # noqa: BLE001
+        out["e2"] = f"{type(e).__name__}: {e}"
+
+    res, why = zip(*(out["look1"] if j == 1 else look(j) for j in range(3)))
+    objs = [out.get(f"r{j}") for j in range(3)]
+    same = [objs[a] is not None and objs[a] is objs[b] for a, b in ((0, 1), (0, 2), (1, 2))]
+    eq = True
+    for a in range(3):
+        for b in range(3):
+            if res[a] is not None and res[b] is not None:
+                try:
+                    eq = eq and objs[a] == objs[b] and hash(objs[a]) == hash(objs[b])
+                except Exception:  # noqa: BLE001
+                    eq = False
+    return {"k": k, "where": st["where"], "pub": st["pub"], "built": st["built"], "res": list(res),
+            "why": list(why), "same": same, "eq": bool(eq)}
+
+
+def run_intern(case):
+    """case["k"]: an int (one park position) or "all" (every position, counted first)"""
+    n = _intern_once(case, None)
+    ks = range(n) if case["k"] == "all" else [case["k"]]
+    obs = [o for o in (_intern_once(case, k) for k in ks) if o is not None]
+    return {"n": n, "obs": obs}
+
+
 def run_case(case):
     return {"prog": run_prog, "stmt": run_stmt, "ctor": run_ctor, "rend": run_rend,
-            "nsprog": run_nsprog, "nssub": run_nssub}[case["type"]](case)
+            "nsprog": run_nsprog, "nssub": run_nssub, "intern": run_intern}[case["type"]](case)
 
 
 if __name__ == "__main__":
